@@ -20,7 +20,14 @@ impl Engine for Repl {
 
     fn run(t: &Trace, verbose: bool, no_taint: bool) -> Outcome {
         let s = Sim::run_opts(t, verbose, no_taint);
-        Outcome { violations: s.violations, stats: s.stats, harness_error: s.harness_error, log: s.trace_log }
+        let mut stats = s.stats;
+        if !s.decode_errors.is_empty() {
+            *stats.probes.entry("undecodable_message".into()).or_insert(0) += s.decode_errors.len() as u64;
+        }
+        // A message the independent decoder cannot parse is a harness error only if nothing else noticed
+        // a problem: a library change that corrupts the wire format is caught by the behavioural oracles.
+        let harness_error = s.harness_error.or_else(|| if s.violations.is_empty() { s.decode_errors.first().cloned() } else { None });
+        Outcome { violations: s.violations, stats, harness_error, log: s.trace_log }
     }
 
     fn len(t: &Trace) -> usize {
